@@ -9,13 +9,22 @@ open Lean FimVerif.Proto FimVerif.Store
 partial def valOfJson : Json → Option Val
   | .str s => some (.str s)
   | .null => some .none
+  | .bool b => some (.bool b)
+  | .num n => match (Json.num n).getInt? with
+    | .ok i => some (.int i)
+    | .error _ => none
   | .arr #[a, b] => do some (.pair (← valOfJson a) (← valOfJson b))
-  | _ => none
+  | j => some (.json j.compress)          -- any other list / dict: opaque, by canonical text
 
-def valToJson : Val → Json
+partial def valToJson : Val → Json
   | .str s => .str s
   | .none => .null
   | .pair a b => .arr #[valToJson a, valToJson b]
+  | .int n => .num (JsonNumber.fromInt n)
+  | .bool b => .bool b
+  | .json t => match Json.parse t with
+    | .ok j => j
+    | .error _ => .str ("<bad-json>" ++ t)
 
 def propsOfJson (j : Json) : Option Props :=
   match j with
